@@ -1254,6 +1254,10 @@ def _e9_terms(tier):
             S(("CAT", ("BIND", "V"), ("IFELSE", S(("CAT", ("READ", "V"), ("top?", "p"))), S(("READ", "V")), S(("push", "no"))))),
             S(("CAT", F, ("BIND", "A"), ("BIND", "A"))), ("READ", "nope"), S(("CAT", ("BIND", "A"), ("ALT", ("BIND", "A"), ("READ", "A")))),
             S(("CAT", ("push", "0"), ("BIND", "Z"), ("READ", "Z"), ("CLOSE_STAR", S(("CAT", ("inc", 2), ("READ", "Z"), ("drop",)))))),
+            # builtin words live in the root scope and are shadowed by user bindings, also for blocks written below the binding
+            ("READ", "bw"), S(("CAT", ("push", "7"), ("BIND", "bw"), ("READ", "bw"))), S(("CAT", ("push", "7"), ("BIND", "bw"), ("BLOCK", ("READ", "bw")), ("apply",))),
+            S(("CAT", ("BLOCK", ("READ", "bw")), ("apply",))), S(("CAT", ("push", "7"), ("BIND", "bw"), ("BLOCK", ("BLOCK", ("CAT", ("READ", "bw"), ("READ", "bdrop")))), ("apply",), ("apply",))),
+            S(("CAT", ("push", "7"), ("BIND", "bw"), ("?", ("CAT", ("READ", "bw"), ("top?", "7"))), ("BLOCK", ("?", ("CAT", ("READ", "bw"), ("top?", "7")))), ("apply",))),
             # blocks: lexical closures over the bindings visible where the block is written
             ("CAT", ("BLOCK", ("push", "in")), ("apply",)), ("BLOCK", ("push", "in")), ("CAT", ("push", "n"), ("apply",)),
             S(("CAT", ("push", "v"), ("BIND", "A"), ("BLOCK", ("READ", "A")), ("BIND", "F"), ("READ", "F"))),
@@ -1410,3 +1414,59 @@ def _e9_show(t):
     if op == "apply":
         return "apply"
     return str(t)
+
+
+def e10(prog, tier="quick"):
+    """the compile-time simplification changes no result: tree::simplify interpreted from source on the tree of every query of a family
+    (the E9 family plus shapes the simplifier rewrites: NOPs in every position of a juxtaposition, nested juxtapositions and nested
+    `,`-lists, single-child juxtapositions of every construct, format strings that are one literal, binding blocks with an empty body
+    `(|A|)` where the name is bound outside, read afterwards, or unbound), the simplified tree run by the interpreted engine, and the
+    results compared with the reference semantics of the ORIGINAL query - the same comparison E9 makes for the unsimplified tree."""
+    import zwengine
+    from cxxobj import OutOfBounds
+    from absint import Thrown
+    inst, findings = [], []
+    E = zwengine.Engine(prog)
+    fam1, _ = _e9_terms("quick")
+    P, D, F, T, N = ("push", "a"), ("drop",), ("fail",), ("twice", "t"), ("NOP",)
+    S = lambda x: ("SCOPE", x)
+    shapes = [("CAT", N, P, N), ("CAT", N, N), ("CAT", N), ("CAT", P), ("CAT", ("CAT", P, D), T), ("CAT", ("CAT", ("CAT", P, N), N), P), ("CAT", N, ("CAT", N, T), N),
+              ("ALT", ("ALT", P, T), F), ("ALT", ("ALT", ("ALT", P, N), D), T), ("ALT", N, ("CAT", N)), ("CAT", ("ALT", P, N)), ("CAT", ("OR", F, N)),
+              ("CAT", ("CAPTURE", S(T))), ("CAT", ("?", F)), ("CAT", ("SUBX", 1, S(P))), ("FORMAT", "lit"), ("CAT", ("FORMAT", "lit")), ("FORMAT", "a", N, "b"),
+              ("CAPTURE", S(("CAT", N, T, N))), ("?", ("CAT", N, N)), ("IFELSE", S(("CAT", N)), S(("CAT", P, N)), S(N)), ("CLOSE_STAR", S(("CAT", N, ("inc", 2), N))),
+              # binding blocks with an empty body
+              S(("CAT", ("push", "1"), ("BIND", "A"), ("CAPTURE", S(("CAT", ("push", "2"), S(("CAT", ("BIND", "A"), N)), ("READ", "A")))))),
+              S(("CAT", ("push", "1"), ("push", "2"), ("BIND", "A"), S(("CAT", ("BIND", "A"), N)), ("READ", "A"))),
+              ("CAT", ("push", "1"), S(("CAT", ("BIND", "A"), N)), ("READ", "A")),
+              S(("CAT", ("push", "1"), ("BIND", "A"), ("push", "9"), S(S(("CAT", ("BIND", "A"), N))), ("READ", "A"))),
+              S(("CAT", ("push", "1"), ("push", "2"), S(("CAT", ("BIND", "A"), ("BIND", "B"), N)), ("push", "3"), ("BIND", "A"), ("READ", "A"))),
+              S(("CAT", ("push", "1"), ("BIND", "A"), ("BLOCK", ("CAT", ("push", "5"), S(("CAT", ("BIND", "A"), N)), ("READ", "A"))), ("apply",)))]
+    fam = shapes + (fam1 if tier == "thorough" else [x for i, x in enumerate(fam1) if i % 4 == 0])
+    wrap = lambda t: ("CAT", ("ALT", ("push", "p"), ("push", "q")), t)
+    bad = {}
+    n = 0
+    for idx, t in enumerate(fam):
+        group = "E10:rewritten-shapes" if idx < len(shapes) else "E10:family"
+        for spec in (t, wrap(t)):
+            n += 1
+            try:
+                want = list(zwengine.reference(spec, ("x",)))
+            except zwengine.RefError:
+                want = ("error",)
+            try:
+                tree = E.simplified(spec)
+                got = E.run(spec, ["x"], tree=tree)
+            except OutOfBounds as x:
+                got = ("memory", str(x))
+            except Thrown as x:
+                got = ("error",)
+            if isinstance(got, tuple) and got and got[0] == "error":
+                got = ("error",)
+            if got != want and group not in bad:
+                bad[group] = "after tree::simplify the query %s on the stack [x] yields %s; the query means %s" % (
+                    _e9_show(spec), got if not isinstance(got, list) else [list(g) for g in got], want if not isinstance(want, list) else [list(w) for w in want])
+    for g in ("E10:rewritten-shapes", "E10:family"):
+        inst.append((g, {"queries_run": n}))
+        if g in bad:
+            findings.append({"key": g, "where": "libzwerg/tree.cc", "msg": bad[g], "detail": None})
+    return inst, findings
